@@ -126,7 +126,7 @@ def payload_ok(rule, p):
         return None
     if rule in ("PERCENT_INT", "INT_1_254", "INT_0_254", "INT"):
         lo, hi = {"PERCENT_INT": (0, 100), "INT_1_254": (1, 254), "INT_0_254": (0, 254),
-                  "INT": (0, None)}[rule]
+                  "INT": (0, None)}[rule]      # for INT the lower bound only classifies: negatives are decided below
         if p == "":
             return False
         v = _plain_int(p)
@@ -139,7 +139,8 @@ def payload_ok(rule, p):
         if re.match(r"^-[0-9]+$", p):
             if int(p) == 0:
                 return None          # "-0": a spelling of zero the statement does not decide
-            return False if rule != "INT" else None
+            # "integers for counters": the rule is about the type, not the sign (signal reports are negative dBm values)
+            return False if rule != "INT" else True
         if not any(ch.isdigit() for ch in p):
             return False
         return None
@@ -265,7 +266,7 @@ def corpus(rule):
                 ("abc", False), ("2.5", None)]
     if rule == "INT":
         return [("0", True), ("123", True), ("123456", True), ("4294967295", True), ("", False),
-                ("abc", False), ("-5", None), ("1.5", None), ("1e3", None), ("inf", False), ("nan", False)]
+                ("abc", False), ("-5", True), ("-67", True), ("-128", True), ("1.5", None), ("1e3", None), ("inf", False), ("nan", False)]
     if rule == "FLOAT_0_100":
         return [("0", True), ("50", True), ("99.5", True), ("100", True), ("100.0", True), ("0.0", True),
                 ("-0.1", False), ("100.1", False), ("101", False), ("abc", False), ("", False),
